@@ -559,7 +559,7 @@ class MEIExporter:
             if note.technical is not None:
                 for technical_notation in note.technical:
                     if (
-                        isinstance(technical_notation, score.Fingering)
+                        isinstance(technical_notation, spt.Fingering)
                         and note.id is not None
                     ):
                         fing_el = etree.SubElement(measure_el, "fing")
@@ -568,7 +568,7 @@ class MEIExporter:
                         # Naive way to place the fingering notation
                         fing_el.set("place", ("above" if note.staff == 1 else "below"))
                         # text is a child element of fingering but not a xml element
-                        fing_el.text = technical_notation.fingering
+                        fing_el.text = str(technical_notation.fingering)
 
 
 @deprecated_alias(parts="score_data")
